@@ -8,6 +8,13 @@ A. Channel table (oracle on the implementation, marker non-interference): for ev
    ones): the outputs must be equal and contain no marker, every attribute read of a spied object must have been asked of
    the guard first, refused attributes must never be read.  Channels that are unguarded in the code are known findings
    (one per call site); anything else is a violation.
+   Error channel: every channel that catches the refusal is rendered again with every way of LOOKING at the error (dtml-except
+   showing error_value / error_tb / str(error_value) in an expression, through a nested try-finally, and the exception escaping
+   to the application: its arguments, attributes and text are inspected): no marker, nothing depending on refused data.
+   Refused objects: an object the ITEM guard refuses (loop item, tree branch; ids of refused tree nodes and of everything
+   below them carry the marker, id= / url= may name another attribute) is not looked at AT ALL — every attribute access of
+   such a node (data, tpId, whatever id= / url= names, sort key of a tree, probes for missing attributes) is a violation, in
+   parts A, D and E (left out: the dtml-in sort key, C05-sort-key; expand_all, C05-tree-expand-all).
 B. '_' names: never resolved from client objects (with or without guards); restricted expressions naming _attributes are
    rejected.
 D. Overlapping renderings: every channel again while the SAME compiled template object is rendered a second time, for
@@ -111,19 +118,33 @@ class Node(Spy):
     """item of a loop / node of a tree.  Data attributes (label, the branches methods) are spied; id, url and sort key are
     class level: the tags read those with plain getattr (ids / the finding C05-sort-key), which is not what parts D / E judge"""
 
-    def __init__(self, oid, log, label, key=0, kids=(), container=list, **attrs):
+    def __init__(self, oid, log, label, key=0, kids=(), container=list, idmark='', **attrs):
         def branches():
             return container(object.__getattribute__(self, '_kids'))
         Spy.__init__(self, oid, log, label=label, tpValues=branches, kids=branches, **attrs)
         object.__setattr__(self, '_key', key)
         object.__setattr__(self, '_kids', list(kids))
+        object.__setattr__(self, '_idmark', idmark)
+
+    def __getattribute__(self, name):
+        # ANY attribute somebody looks at (ids, urls, sort keys, probes for attributes the node does not have) leaves a 'touch':
+        # nothing at all may be read of an object the item guard has refused (refused_object_problems)
+        if not name.startswith('_') and name not in object.__getattribute__(self, '_names'):
+            object.__getattribute__(self, '_log').append(('touch', object.__getattribute__(self, '_oid'), name))
+        return Spy.__getattribute__(self, name)
 
     @property
     def key(self):
         return object.__getattribute__(self, '_key')
 
     def tpId(self):
-        return 'n%d' % object.__getattribute__(self, '_oid')
+        """the id carries the marker of a refused node: an id of a refused node that reaches the output / an error text is seen"""
+        return 'n%d%s' % (object.__getattribute__(self, '_oid'), object.__getattribute__(self, '_idmark'))
+
+    @property
+    def ident(self):
+        """what the author may name with id= / url= instead of tpId (same text, so that a tree-s state fits either)"""
+        return 'n%d%s' % (object.__getattribute__(self, '_oid'), object.__getattribute__(self, '_idmark'))
 
 
 class Response:
@@ -180,8 +201,18 @@ def guarded_class(log, denied, denied_items):
 
 
 # channel -> (source, builder(log, m1, m2) -> (client, namespace, denied, denied_items), finding id or None)
-def channels():
-    T = '<dtml-try>%s<dtml-except>DENIED</dtml-try>'
+ERROR_FORMS = {
+    # what the template (or the application that called it) does with the error of a refused read: every form shows a different
+    # part of the exception; whatever is shown must not depend on refused data
+    'value': '<dtml-try>%s<dtml-except>[<dtml-var error_type>: <dtml-var error_value>]</dtml-try>',
+    'traceback': '<dtml-try>%s<dtml-except>[<dtml-var error_tb>]</dtml-try>',
+    'value-in-expr': '<dtml-try>%s<dtml-except>[<dtml-var "_.str(error_value)"> <dtml-var "_[\'error_type\']">]</dtml-try>',
+    'nested-try': '<dtml-try><dtml-try>%s<dtml-finally>F</dtml-try><dtml-except>[<dtml-var error_value>]</dtml-try>',
+    'escapes': '%s',                    # the application sees the exception itself: its text and arguments are inspected
+}
+
+
+def channels(T='<dtml-try>%s<dtml-except>DENIED</dtml-try>'):
 
     def objs(log, m, extra=None):
         return Spy(1, log, secret=m, pub='p1', **(extra or {}))
@@ -241,14 +272,14 @@ def channels():
     # order the author asks for, whichever way the branches are named, also below the first level (expand_all)
     def forest(log, m, n, container=list):
         return Node(9, log, 'root', kids=[
-            Node(1, log, m, key=2, kids=[Node(11, log, 'below-' + m, key=1)], container=container),
+            Node(1, log, m, key=2, kids=[Node(11, log, 'below-' + m, key=1, idmark='-below-' + m)], container=container, idmark='-' + m),
             Node(4, log, 'ok', key=3),
-            Node(7, log, 'zz', key=1, kids=[Node(6, log, n, key=9), Node(10, log, 'deep', key=5), Node(12, log, 'deeper', key=7)],
+            Node(7, log, 'zz', key=1, kids=[Node(6, log, n, key=9, idmark='-' + n), Node(10, log, 'deep', key=5), Node(12, log, 'deeper', key=7)],
                  container=container),
             Node(8, log, 'last', key=0)], container=container)
     body = '{<dtml-var label>}'
     for opt in ('', 'sort=key', 'reverse', 'sort=key reverse', 'branches=kids', 'branches_expr="kids()" sort=key',
-                'assume_children=1 reverse', 'single nowrap sort=key'):
+                'assume_children=1 reverse', 'single nowrap sort=key', 'id=ident', 'url=ident id=ident sort=key'):
         for deep in (0, 1):
             for cont in (list, tuple):
                 if cont is tuple and (deep or 'sort' not in opt and 'reverse' not in opt):
@@ -312,6 +343,8 @@ def render_channel(name, src, build, m, n, mode=None):
     log = HookLog()
     client, ns, denied, denied_items = build(log, m, n)
     cls = guarded_class(log, denied, denied_items)
+    log.error = ''
+    log.expand_all = bool(isinstance(ns, dict) and ns.get('expand_all'))
     try:
         t = cls(src)
         if mode in ('warm', 'warm-other'):
@@ -344,6 +377,12 @@ def render_channel(name, src, build, m, n, mode=None):
         out = t(client, ns)
     except Exception as e:  # noqa
         out = 'RAISED %s' % type(e).__name__
+        # what an application / an error page shows of an exception that escapes: its text and its arguments
+        log.error = '%r | %r' % (e.args, sorted((k, repr(v)) for k, v in vars(e).items()))
+        try:
+            log.error += ' | %s' % (e,)
+        except Exception:  # noqa  (zExceptions' Unauthorized.__str__ fails on the list of positions dtml-tree raises it with)
+            pass
     log.hook = None
     return out, log, denied, denied_items
 
@@ -360,6 +399,27 @@ def read_problems(log):
         if ev[0] == 'read-item':
             problems.append(('unguarded-item', 'key %r of the record-like object %d was read as an item (no guard mediates that read)' % (ev[2], ev[1])))
     return problems
+
+
+def refused_object_problems(log, denied_items, src):
+    """an object the ITEM guard refuses (a loop item, a tree branch) is not the author's to look at: no attribute of it — spied
+    data, ids, urls, whatever id= / url= names, probes for missing attributes — may be read at all, before or after the refusal.
+    Left out (known findings with replays of their own): the sort key of a dtml-in (C05-sort-key: the loop sorts before it asks
+    the guard), renderings with expand_all (C05-tree-expand-all: the initial state is computed without the item guard)."""
+    if getattr(log, 'expand_all', False):
+        return []
+    sort_names = set(re.findall(r'<dtml-in [^>]*?sort=(\w+)', src)) | set(re.findall(r'<dtml-in [^>]*?sort_expr="\'(\w+)\'"', src))
+    problems = []
+    for ev in log:
+        if ev[0] in ('read', 'touch') and isinstance(ev[1], int) and ev[1] in denied_items and ev[2] not in sort_names:
+            problems.append(('refused-object:' + ev[2], 'attribute %r of object %d was read although the item guard refuses that object' % (ev[2], ev[1])))
+    return problems
+
+
+def error_problems(log):
+    if 'MARKER' in getattr(log, 'error', ''):
+        return [('leak', 'refused data is in the text / arguments of the exception that escapes the rendering: %s' % log.error[:300])]
+    return []
 
 
 def judge(res, name, src, finding, problems, extra=None):
@@ -380,18 +440,29 @@ def judge(res, name, src, finding, problems, extra=None):
 
 
 def part_a(res):
-    for (name, (src, build, finding)), mode in [(c, w) for c in channels().items() for w in MODES]:
+    plan = [(c, w, None) for c in channels().items() for w in MODES]
+    # every channel that catches the refusal again with every way of LOOKING at the error instead of just noticing it
+    base = channels()
+    for form, T in ERROR_FORMS.items():
+        plan += [(c, None, form) for c in channels(T).items() if c[1][0] != base[c[0]][0]]
+    for (name, (src, build, finding)), mode, form in plan:
         runs = [render_channel(name, src, build, m, n, mode) for m, n in ((MARK_A, MARK_B), (MARK_B, MARK_A), ('', MARK_A), (MARK_A, ''))]
         res.evaluations += 1
-        res.nt(('channel', name, mode))
-        name = name + mode_text(mode)
+        res.nt(('channel', name, mode, form))
+        if form:
+            res.count('error_form=' + form)
+        name = name + mode_text(mode) + (' (error shown: %s)' % form if form else '')
         problems = []          # (kind, text)
-        outs = [r[0] for r in runs]
+        # (memory addresses in the repr of an error's arguments are not data of anybody)
+        outs = [re.sub(r' at 0x[0-9a-f]+', ' at 0x?', r[0]) for r in runs]
         if len(set(outs)) != 1:
             problems.append(('leak', 'the output depends on data the guard refuses: %r vs %r' % (outs[0], [o for o in outs if o != outs[0]][0])))
         if any('MARKER' in o for o in outs):
             problems.append(('leak', 'refused data reached the output: %r' % ([o for o in outs if 'MARKER' in o][0],)))
         problems += read_problems(runs[0][1])
+        for run in runs:
+            problems += error_problems(run[1])
+        problems += refused_object_problems(runs[0][1], runs[0][3], src)
         judge(res, name, src, finding, problems)
 
 
@@ -418,7 +489,7 @@ def part_d(res, r, tier):
                 problems.append(('overlap', 'the guarded rendering gives %r, a fresh template object that nobody interrupts gives %r' % (out, base)))
             if 'MARKER' in out:
                 problems.append(('leak', 'refused data reached the output: %r' % (out,)))
-            problems += read_problems(log)
+            problems += read_problems(log) + error_problems(log) + refused_object_problems(log, denied_items, src)
             judge(res, name + mode_text(mode), src, finding, problems, {'mode': list(mode)})
 
 
@@ -444,6 +515,9 @@ def gen_in_case(r):
     r.shuffle(opts)
     body = {'obj': '[<dtml-var label>]', 'map': '[<dtml-var label>]', 'str': '[<dtml-var sequence-item>]', 'pair': '[<dtml-var sequence-key>=<dtml-var sequence-item>]'}[kind]
     c['source'] = '<dtml-in l %s>%s</dtml-in>' % (' '.join(opts), body)
+    c['error'] = r.choice(['escapes', 'escapes'] + [f for f in ERROR_FORMS if f not in ('escapes', 'traceback')])
+    if c['error'] != 'escapes':
+        c['source'] = ERROR_FORMS[c['error']] % c['source']
     return c
 
 
@@ -467,7 +541,7 @@ def in_build(c):
         for i in range(len(c['keys'])):
             v, text, ident = shown(i, m)
             if c['kind'] == 'obj':
-                v = Node(i + 1, log, text, key=c['keys'][i])
+                v = Node(i + 1, log, text, key=c['keys'][i], idmark=('-' + m) if i in c['refused'] else '')
             items.append(v)
             if i in c['refused']:
                 denied_items.add(ident)
@@ -515,21 +589,36 @@ def gen_tree_case(r):
     c = {'family': 'tree', 'kids': {str(k): v for k, v in kids.items()}, 'keys': [keys[i] for i in range(n + 1)], 'refused': refused,
          'state': state, 'open': opened, 'skip': r.random() < 0.65, 'sort': r.random() < 0.5, 'reverse': r.random() < 0.5,
          'branches': r.choice(['', '', 'branches=kids', 'branches_expr="kids()"']), 'tuple': r.random() < 0.4,
-         'extra': r.sample(['assume_children=1', 'single', 'nowrap', 'urlparam="a=1"', 'id=tpId', 'url=tpId'], r.randint(0, 2))}
+         'extra': r.sample(['assume_children=1', 'single', 'nowrap', 'urlparam="a=1"', 'id=tpId', 'url=tpId', 'id=ident', 'url=ident'], r.randint(0, 2))}
+    if 'id=tpId' in c['extra'] and 'id=ident' in c['extra']:
+        c['extra'].remove('id=tpId')
+    if 'url=tpId' in c['extra'] and 'url=ident' in c['extra']:
+        c['extra'].remove('url=tpId')
     opts = [c['branches'], 'sort=key' if c['sort'] else '', 'reverse' if c['reverse'] else '', 'skip_unauthorized' if c['skip'] else ''] + c['extra']
     opts = [o for o in opts if o]
     r.shuffle(opts)
     c['source'] = '<dtml-tree o %s>{<dtml-var label>}</dtml-tree>' % ' '.join(opts)
+    c['error'] = r.choice(['escapes', 'escapes'] + [f for f in ERROR_FORMS if f not in ('escapes', 'traceback')])
+    if c['error'] != 'escapes':
+        c['source'] = ERROR_FORMS[c['error']] % c['source']
     return c
 
 
 def tree_build(c):
     kids = {int(k): v for k, v in c['kids'].items()}
 
+    def idmark(i, m):
+        # the id of a refused node — and of everything below it, which the author can only reach through it — carries the marker
+        j = i
+        while j and j not in c['refused']:
+            j = [p for p in kids if j in kids[p]][0]
+        return ('-' + m) if j else ''
+
     def build(log, m, n):
         def node(i):
             label = ('%s-%d' % (m, i)) if i in c['refused'] else 'L%d' % i
-            return Node(i + 100, log, label, key=c['keys'][i], kids=[node(j) for j in kids[i]], container=tuple if c['tuple'] else list)
+            return Node(i + 100, log, label, key=c['keys'][i], kids=[node(j) for j in kids[i]], container=tuple if c['tuple'] else list,
+                        idmark=idmark(i, m))
         ns = tree_ns(o=node(0))
         if c['state'] == 'expand_all':
             ns['expand_all'] = 1
@@ -537,7 +626,7 @@ def tree_build(c):
             from TreeDisplay.TreeTag import encode_seq
 
             def st(i):
-                return ['n%d' % (i + 100), [st(j) for j in kids[i] if j in c['open']]]
+                return ['n%d%s' % (i + 100, idmark(i, m)), [st(j) for j in kids[i] if j in c['open']]]
             ns['tree-s'] = encode_seq([st(0)])
         return None, ns, set(), {i + 100 for i in c['refused']}
     return build
@@ -597,6 +686,19 @@ def part_e(res, r, tier):
                 out, log, denied, denied_items = render_channel('', c['source'], build, m, m, mode)
                 res.evaluations += 1
                 got = out if out.startswith('RAISED') else ''.join(re.findall(r'\{.*?\}', out) if c['family'] == 'tree' else [out])
+                if c.get('error', 'escapes') != 'escapes':
+                    # the error is caught and shown by the template: what the try block had put out is dropped, the handler
+                    # shows the error — of which only the type is the reference's business; the text must be marker-free
+                    if c['error'] == 'nested-try' and c['family'] == 'in' and got.endswith('F'):
+                        got = got[:-1]
+                    if out.startswith('[') and out.endswith(']') and ('Unauthorized' in out or c['error'] == 'nested-try'):
+                        got = 'RAISED Unauthorized'
+                    elif (want == 'RAISED Unauthorized' or may_raise) and out.startswith('RAISED '):
+                        # showing the error may itself fail (str() of the Unauthorized dtml-tree raises with a list of
+                        # positions does, in zExceptions): still an error and nothing displayed
+                        got = want
+                problems += [p[1] for p in error_problems(log)]
+                problems += [p[1] for p in refused_object_problems(log, denied_items, c['source'])]
                 if got != want and not (may_raise and got == 'RAISED Unauthorized'):
                     problems.append('displayed %r, the reference (allowed items only, in the order asked for) is %r' % (got, want))
                 if 'MARKER' in out:
@@ -1230,6 +1332,9 @@ def run(res, tier, have_driver):
     res.partial.append('dtml-tree reads ids / urls (tpId, tpURL) and its sort= key with plain getattr, and expand_all walks the branches without '
                        'the item guard (ids of refused nodes end up in the tree-s cookie): the tree nodes of parts A / D / E keep id and sort key '
                        'out of the spied attributes, so these reads are not judged')
+    res.partial.append('of nodes the item guard REFUSES every attribute access is judged (none allowed; error texts shown by dtml-except or '
+                       'escaping to the caller are searched for their ids / labels) except under expand_all (C05-tree-expand-all) and for '
+                       'the sort key of dtml-in (C05-sort-key)')
     res.partial.append('left out of the format grid (known findings, replayed by findings_probe): the url option (C05-var-url), %(key)s '
                        'formats on record-like values (C05-fmt-mapping-key), fmt=sql-quote / structured-text / restructured-text on '
                        'non-text values (C05-special-format-attr)')
